@@ -615,3 +615,45 @@ Definition pbkdf2_params (known_prf : list Z -> bool) (default_key_size : Z) (kd
       end
   | _ => None
   end.
+
+(* ------------------------------------------------------------------------------------------- *)
+(* the private key record inside the OpenSSH container: String(alg) followed by the fields of
+   encode_ssh_private().  Every field is a length-prefixed string (or mpint) except the FLAGS of the
+   security-key types, which is a single byte (sk_eddsa.py / sk_ecdsa.py: Byte(self._flags),
+   packet.get_byte()). *)
+Inductive field := FStr (b : bytes) | FByte (x : Z).
+
+Definition field_is_str (f : field) : bool := match f with FStr _ => true | FByte _ => false end.
+Definition enc_field (f : field) : bytes := match f with FStr b => sshstring b | FByte x => [x] end.
+Definition krecord := (bytes * list field)%type.
+Definition enc_record (r : krecord) : bytes := sshstring (fst r) ++ concat (map enc_field (snd r)).
+
+Fixpoint get_fields (layout : list bool) (p : bytes) : option (list field * bytes) :=
+  match layout with
+  | [] => Some ([], p)
+  | true :: l =>
+      match get_string p with
+      | Some (s, r) => match get_fields l r with Some (fs, r') => Some (FStr s :: fs, r') | None => None end
+      | None => None
+      end
+  | false :: l =>
+      match p with
+      | x :: r => match get_fields l r with Some (fs, r') => Some (FByte x :: fs, r') | None => None end
+      | [] => None
+      end
+  end.
+
+Definition dec_record (layout_of : bytes -> option (list bool)) (p : bytes) : option (krecord * bytes) :=
+  match get_string p with
+  | Some (alg, r) =>
+      match layout_of alg with
+      | Some l => match get_fields l r with Some (fs, r') => Some ((alg, fs), r') | None => None end
+      | None => None
+      end
+  | None => None
+  end.
+
+(* sk-ssh-ed25519@openssh.com: public value, application, flags, key handle, reserved;
+   sk-ecdsa-sha2-nistp256@openssh.com: curve id, public value, application, flags, key handle, reserved *)
+Definition SK_ED25519_LAYOUT : list bool := [true; true; false; true; true].
+Definition SK_ECDSA_LAYOUT : list bool := [true; true; true; false; true; true].
